@@ -47,9 +47,13 @@ class VTIReader(VTKXMLStructuredReader):
         return "ImageData/Piece"
 
     def _make_mesh(self) -> tuple[ImageMesh, CellTypeToCellIndices]:
+        # VTK places the point with structured index (i, j, k) at origin + direction * (spacing * (i, j, k)),
+        # and the indices of this piece start at the lower ends of its extent
+        lower = np.array([self._extents[0], self._extents[2], self._extents[4]], dtype=float)
+        origin = np.array(self._origin) + self._basis.dot(np.array(self._spacing) * lower)
         mesh = ImageMesh(
             extents=(self._cells[0], self._cells[1], self._cells[2]),
-            origin=(self._origin[0], self._origin[1], self._origin[2]),
+            origin=(origin[0], origin[1], origin[2]),
             spacing=(self._spacing[0], self._spacing[1], self._spacing[2]),
             basis=np.copy(self._basis),
         )
